@@ -205,7 +205,7 @@ type Emitter struct {
 }
 
 func NewEmitter() *Emitter {
-	e := &Emitter{declared: map[string]string{}, funcs: map[string]bool{}}
+	e := &Emitter{declared: map[string]string{"str.empty": "Str"}, funcs: map[string]bool{}}
 	return e
 }
 
@@ -265,4 +265,7 @@ const smtPrelude = `(set-option :produce-models true)
 (declare-sort Str 0)
 (declare-fun strlen (Str) Int)
 (declare-fun typetag (Int) Int)
+(declare-fun str.empty () Str)
+(assert (= (strlen str.empty) 0))
+(assert (forall ((s Str)) (! (and (>= (strlen s) 0) (=> (= (strlen s) 0) (= s str.empty))) :pattern ((strlen s)))))
 `
